@@ -38,6 +38,13 @@ def generate(seed, stratum, tier):
   sc = cc.gen_chart_scenario(rng, combos=[('queued', 'closure-spied')], nops=(4, 25), spec_kw=kw, flags=False)
   sc['variants'] = [0] + sorted(rng.sample(range(1, len(VARIANTS)), 3 if tier == 'quick' else 6))
   sc['twin'] = rng.random() < 0.4
+  if stratum != 'late-registration' and rng.random() < 0.3:
+    # the chart subscribes to one of its signals before it is started (the request travels to it as a meta event) and
+    # later publishes that signal itself: on hosts with a fabric the event comes back through it
+    sig = rng.choice(sc['spec']['signals'])
+    sc['pre_start'] = [['subscribe', sig]]
+    for _ in range(rng.randrange(1, 4)):
+      sc['ops'].insert(rng.randrange(0, len(sc['ops']) + 1), ['pub', sig])
   if stratum == 'late-registration':
     # handling for a (state, signal) pair is registered, or replaced, after the chart has been running
     # (the text of to_code is taken at build time, so those variants are left out here)
